@@ -52,7 +52,7 @@ ASSUMPTIONS = [
     "a garbage-collection pass is specified as atomic steps of two kinds (read the store; later remove by value each expired "
     "object it saw), not as one atomic operation, because that is what a pass is in the code; it removes nothing else and "
     "never touches the identifier counter, whatever it leaves behind; an attendance pass has no effect on the specified "
-    "state; start populations hold 0-3 objects of which 0-2 (possibly all) have expired",
+    "state, and with no other operation in flight it serves exactly the stored subscriptions when an object is stored; start populations hold 0-3 objects of which 0-2 (possibly all) have expired",
     "schedules are enumerated systematically up to 2 preemptions (bounded number of runs per scenario) and then sampled",
 ]
 EXPLANATION = ("PARTIAL. theorems: lock discipline / single-section database methods / ranked lock order of the regenerated LDM "
@@ -75,6 +75,8 @@ CONS = (2, 1)           # consumer applications
 # removes exactly the expired objects
 OBJ_ALT = 5000
 GC_SLOTS = 8            # a pass is (number of the call) * GC_SLOTS + (index of the expired object it removes)
+AFTER_TID = -2          # thread id of the quiescent attendance passes issued after a run (the set-up is thread -1)
+AFTER_PASSES = 2        # a pass may leave state behind that only the NEXT pass reads: two passes
 TWIN_TOKEN = 777        # objects added with this token at the same virtual time are content-identical (only the id differs)
 EXTRA = {"smc": 1, "smo": 2, "smic": 3, "ac": 0, "radius": 10, "rd": 1, "td": 0}
 
@@ -181,6 +183,9 @@ class World:
         self.sub_ids = {}           # subscription token -> identifier returned by the LDM
         self.setup_atoms = []
         self.gc_calls = {}          # thread id -> number of maintenance passes started by that thread
+        self.frozen = None          # the state at the end of the run, recorded before the aftermath
+        self.after = None           # aftermath: per quiescent attendance pass the notifications [(subscription token, tokens)]
+        self.after_state = None     # the state after the aftermath
         real_collect = self.mnt.collect_trash
 
         def counted_collect(*a, **k):
@@ -329,6 +334,27 @@ class World:
         return rec
 
     def final_state(self):
+        if self.frozen is not None:
+            return self.frozen
+        return self.live_state()
+
+    def aftermath(self, passes=None):
+        """AFTER the run, with no operation in flight: attendance passes issued one after the other (thread AFTER_TID).
+        What they deliver is the only observation of what the service believes to be subscribed - the notifications;
+        state carried from one pass to the next (the last-checked map) shows here and nowhere in the stored state.  The
+        state at the end of the run is recorded first: oracle and linearizability check keep judging that state."""
+        self.frozen = self.live_state()
+        self.after = []
+        for _ in range(AFTER_PASSES if passes is None else passes):
+            n0 = len(self.notes)
+            self.call(AFTER_TID, ("attend",))
+            self.after.append([(tok, data) for (_ev, tok, data) in self.notes[n0:]])
+        self.after_state = self.live_state()
+
+    def after_served(self):
+        return None if self.after is None else [sorted(tok for tok, _d in p) for p in self.after]
+
+    def live_state(self):
         items = sorted((int(i), find_token(d)) for i, d in self.db.database.items())
         return {"items": items, "next": int(self.db._next_id),
                 "prov": sorted(self.svc.data_provider_its_aid), "cons": sorted(self.svc.data_consumer_its_aid),
@@ -343,8 +369,8 @@ def encode_atoms(atoms):
     return a
 
 
-def decode_model(flat, n_atoms):
-    """-> (results per atom, final state)"""
+def decode_model(flat, n_atoms, with_served=False):
+    """-> (results per atom, final state) [, subscription tokens a quiescent attendance pass serves (dispatch 2)]"""
     i = 0
     res = []
     for _ in range(n_atoms):
@@ -373,8 +399,11 @@ def decode_model(flat, n_atoms):
     n = flat[i]; prov = sorted(flat[i + 1:i + 1 + n]); i += 1 + n
     n = flat[i]; cons = sorted(flat[i + 1:i + 1 + n]); i += 1 + n
     n = flat[i]; sp = flat[i + 1:i + 1 + 2 * n]; i += 1 + 2 * n
-    return res, {"items": [(int(a), int(b)) for a, b in items], "next": nxt, "prov": prov, "cons": cons,
-                 "subs": sorted(sp[0::2])}
+    final = {"items": [(int(a), int(b)) for a, b in items], "next": nxt, "prov": prov, "cons": cons, "subs": sorted(sp[0::2])}
+    if with_served:
+        assert flat[i] == 98, flat[i:]
+        return res, final, sorted(flat[i + 2:i + 2 + flat[i + 1]])
+    return res, final
 
 
 def linear_extensions(calls, limit):
@@ -531,6 +560,12 @@ def spec_final(st):
             "subs": sorted(x[0] for x in subs)}
 
 
+def spec_served(st):
+    """LdmConc.served: what a quiescent attendance pass serves in this state"""
+    items, _nxt, _prov, _cons, subs, _gc = st
+    return sorted(x[0] for x in subs) if items else []
+
+
 def same_result(obs, r):
     return obs is None or (obs[0] == r[0] and (list(obs[1]) == list(r[1]) if isinstance(obs[1], (list, tuple)) else obs[1] == r[1]))
 
@@ -597,20 +632,25 @@ class LinChecker:
         todo, self.pending = self.pending, []
         if not todo:
             return
-        outs = self.ctx.model.batch([(1, encode_atoms(atoms)) for (_inp, atoms, _ns, _sq, _obs, _final) in todo])
+        outs = self.ctx.model.batch([(2, encode_atoms(atoms)) for (_inp, atoms, _ns, _sq, _obs, _final, _aft) in todo])
         self.model_calls += 1
         self.candidates += len(todo)
-        for (inp, atoms, ns, sq, obs, final), flat in zip(todo, outs):
-            res, mfinal = decode_model(flat, len(atoms))
+        for (inp, atoms, ns, sq, obs, final, aft), flat in zip(todo, outs):
+            res, mfinal, mserved = decode_model(flat, len(atoms), with_served=True)
             if not (mfinal == final and all(same_result(o, r) for o, r in zip(obs, res[ns:]))):
                 self.ctx.mismatch("python_spec_vs_model", inp, {"results": [list(r) for r in res[ns:]], "final": mfinal},
                                   {"order": sq, "final": final}, "the proposed order is not accepted by the extracted model")
+            elif aft is not None and any(p != mserved for p in aft):
+                # the state the witness order ends in decides what a quiescent attendance pass serves (LdmConc.served)
+                self.ctx.mismatch("quiescent_attendance", inp, {"served": mserved, "final": mfinal}, {"served_per_pass": aft},
+                                  "the attendance passes issued after the run do not serve what the specification serves "
+                                  "in the final state of the witness order")
 
     def check(self, world, calls, limit=3000):
         """-> None when some admissible order explains responses and final state, else a description"""
         final = world.final_state()
         key = json.dumps([[c["thread"], c["atoms"], c["inv"] - world.n_setup_events, c["resp"] - world.n_setup_events]
-                          for c in calls] + [final, world.setup_atoms], default=str)
+                          for c in calls] + [final, world.setup_atoms, world.after_served()], default=str)
         # the key contains the real-time stamps, so equal keys mean equal sets of admissible orders
         if key in self.cache:
             return self.cache[key]
@@ -618,7 +658,7 @@ class LinChecker:
         sq = find_witness(world.setup_atoms, calls, final)
         if sq is not None:
             self.pending.append((inp, world.setup_atoms + [calls[i]["atoms"][k] for (i, k) in sq], len(world.setup_atoms),
-                                 list(sq), [calls[i]["atoms"][k][3] for (i, k) in sq], final))
+                                 list(sq), [calls[i]["atoms"][k][3] for (i, k) in sq], final, world.after_served()))
             self.witnesses += 1
             self.cache[key] = None
             return None
@@ -841,15 +881,21 @@ def oracle(world, calls, threads_exc, deadlock):
                         "deregistered, and it is gone", fin["subs"]))
     # notifications: only for a subscription that existed at some instant of the attendance; only objects present
     for (ev, tok, data) in world.notes:
-        c = subs_ok.get(tok)
-        if c is None or c["inv"] > ev:
+        c = subs_ok.get(tok)        # the LAST successful subscribe call for the token; a token may be subscribed again after
+        first = min((x["inv"] for x in setup + run if x["op"][0] == "sub" and x["op"][1] == tok and x["atoms"]    # its end
+                     and x["atoms"][0][3][1] == 1), default=None)
+        if c is None or first > ev:
             bad.append(("notification_phantom", f"a notification was delivered for subscription {tok} before any "
                         "subscribe call for it had started", data))
             continue
         att = [a for a in calls if a["op"][0] in ("attend", "add") and a["inv"] < ev and (a["resp"] is None or a["resp"] > ev)]
         start = min([a["inv"] for a in att], default=ev)
         for u in uns.get(tok, []):
-            if u["resp"] < start:
+            # (a subscribe call for the same token that succeeded and was not over before the unsubscription started
+            # may have stored the subscription again: the notification is then explained by that order)
+            again = any(r["op"][0] == "sub" and r["op"][1] == tok and r["atoms"] and r["atoms"][0][3][1] == 1
+                        and r["resp"] > u["inv"] for r in run)
+            if u["resp"] < start and not again:
                 bad.append(("notification_after_unsubscribe", f"subscription {tok} was notified by an attendance that "
                             "started after its unsubscription had completed", data))
         for d in run:
@@ -860,6 +906,56 @@ def oracle(world, calls, threads_exc, deadlock):
             if t not in born or born[t] > ev:
                 bad.append(("notification_phantom_object", f"a notification carried token {t} which no operation had "
                             "started to store", data))
+    bad += aftermath_oracle(world, run, fin, owner, uns)
+    return bad
+
+
+def aftermath_oracle(world, run, fin, owner, uns):
+    """"subscriptions are neither lost nor resurrected", observed where a consumer observes it: in the notifications.
+    Every attendance pass issued AFTER the run (nothing in flight: a sequential order has no freedom left) delivers one
+    notification to each subscription stored at the end of the run whose owner is registered - when an object is stored -
+    and none to anything else, in particular not to a subscription whose unsubscription / whose owner's deregistration
+    was acknowledged during the run (however that call interleaved with an attendance pass of the run); a notification
+    carries the stored objects; a pass leaves registries, subscriptions and store as they were."""
+    bad = []
+    if world.after is None:
+        return bad
+    stored_tokens = sorted(t for _i, t in fin["items"])
+    expect = {}
+    for tok in fin["subs"]:
+        if stored_tokens and owner.get(tok) in fin["cons"]:
+            expect[tok] = expect.get(tok, 0) + 1
+    seen = {"served_per_pass": world.after_served(), "stored": fin["subs"]}
+    for n, notes in enumerate(world.after):
+        got = {}
+        for tok, data in notes:
+            got[tok] = got.get(tok, 0) + 1
+            if tok in expect and data != stored_tokens:
+                bad.append(("notification_wrong_objects", f"pass {n + 1} after the run notified subscription {tok} with objects "
+                            f"other than the stored ones {stored_tokens}", data))
+        for tok in sorted(set(got) | set(expect)):
+            g, e = got.get(tok, 0), expect.get(tok, 0)
+            if g > e and tok not in fin["subs"]:
+                ended = [c["op"] for c in uns.get(tok, [])] + \
+                        [d["op"] for d in run if d["op"][0] == "cdereg" and d["op"][1] == owner.get(tok) and d["atoms"]
+                         and d["atoms"][0][3][1] == 1]
+                if ended:
+                    bad.append(("ended_subscription_served", f"subscription {tok} is not stored at the end of the run - its end "
+                                f"was acknowledged ({ended}) - yet attendance pass {n + 1} issued after the run notified "
+                                f"it {g} time(s): the subscription has been resurrected", seen))
+                else:
+                    bad.append(("unknown_subscription_served", f"attendance pass {n + 1} issued after the run notified "
+                                f"subscription {tok}, which is not stored", seen))
+            elif g > e:
+                bad.append(("subscription_served_twice", f"attendance pass {n + 1} issued after the run notified subscription "
+                            f"{tok} {g} times; it is stored {e} time(s) with a registered owner and objects to report", seen))
+            elif g < e:
+                bad.append(("stored_subscription_not_served", f"subscription {tok} is stored at the end of the run, its owner "
+                            f"is registered and objects are stored, yet attendance pass {n + 1} issued after the run "
+                            "did not notify it: the subscription has been lost", seen))
+    if world.after_state != fin:
+        bad.append(("attendance_changed_state", "the attendance passes issued after the run changed store, registries or "
+                    "subscriptions", {"before": fin, "after": world.after_state}))
     return bad
 
 
@@ -987,6 +1083,15 @@ def handover(make_run, pairs, max_k, seen):
                 break
 
 
+def run_aftermath(w):
+    """the quiescent attendance passes after a run that ended normally -> [] or [(thread, exception)]"""
+    try:
+        w.aftermath()
+    except Exception as e:  # noqa: BLE001 - "no operation raises"
+        return [(AFTER_TID, f"{type(e).__name__}: {e} (attendance pass issued after the run)")]
+    return []
+
+
 def run_scenario(ctx, lin, name, variant, programs, bound, max_runs, random_runs, setup=None, sweep=0, population=None,
                  windows=()):
     """population: name of the start content (POPULATIONS) when it is not given as an explicit set-up; windows: ordered
@@ -1019,6 +1124,8 @@ def run_scenario(ctx, lin, name, variant, programs, bound, max_runs, random_runs
                 inp["setup"] = [list(o) for o in setup]
             excs = [(a.tid, f"{type(a.exc).__name__}: {a.exc}") for a in holder["actors"] if a.exc is not None]
             calls = w.calls
+            if not excs and not holder.get("deadlock"):
+                excs = run_aftermath(w)
             for cls, detail, obs in oracle(w, calls, excs, holder.get("deadlock")):
                 ctx.property_failure(f"{cls}:{name}", inp, detail, None, obs)
             if excs or holder.get("deadlock"):
@@ -1093,6 +1200,8 @@ def run_sequential(ctx, variant, names=None, concrete=None, population="base", s
     ctx.count(1, "sequential_" + variant)
     tally(ctx, "population_" + population)
     ctx.nontriv(("seq", variant, population, tuple(ops)))
+    if not err:
+        err = next((e for _t, e in run_aftermath(w)), None)
     if err:
         ctx.property_failure("operation_raised:sequential", inp, "a single-threaded call raised", None, err)
         return
@@ -1102,12 +1211,12 @@ def run_sequential(ctx, variant, names=None, concrete=None, population="base", s
     n_setup = len(w.setup_atoms)
 
     def compare(flat):
-        res, mfinal = decode_model(flat, len(atoms))
+        res, mfinal, mserved = decode_model(flat, len(atoms), with_served=True)
         pst, pres = spec_init(), []
         for at in atoms:
             pst, r = spec_step(pst, at)
             pres.append((r[0], r[1]))
-        if [list(x) for x in pres] != [list(x) for x in res] or spec_final(pst) != mfinal:
+        if [list(x) for x in pres] != [list(x) for x in res] or spec_final(pst) != mfinal or spec_served(pst) != mserved:
             ctx.mismatch("python_spec_vs_model", inp, [[list(x) for x in res], mfinal], [[list(x) for x in pres], spec_final(pst)])
         res = res[n_setup:]
         mres = [list(r) for r, o in zip(res, observed) if o is not None]
@@ -1116,8 +1225,10 @@ def run_sequential(ctx, variant, names=None, concrete=None, population="base", s
             ctx.mismatch("sequential_responses", inp, mres, ires)
         elif mfinal != impl_final:
             ctx.mismatch("sequential_final_state", inp, mfinal, impl_final)
+        elif any(p != mserved for p in w.after_served()):
+            ctx.mismatch("sequential_quiescent_attendance", inp, mserved, w.after_served())
     if later is None:
-        compare(ctx.model.batch([(1, encode_atoms(atoms))])[0])
+        compare(ctx.model.batch([(2, encode_atoms(atoms))])[0])
     else:
         later.append((encode_atoms(atoms), compare))     # the caller sends all histories to the model in one batch
 
@@ -1143,7 +1254,7 @@ def sequential_cases(ctx, lin, n_cases):
             names = [ctx.rng.choice(kinds) for _ in range(ctx.rng.randint(1, 10))]
             pop = "base" if ctx.rng.random() < 0.4 else ctx.rng.choice(pops)
         run_sequential(ctx, variant, names=names, population=pop, later=later)
-    for flat, (_enc, compare) in zip(ctx.model.batch([(1, enc) for enc, _c in later]), later):
+    for flat, (_enc, compare) in zip(ctx.model.batch([(2, enc) for enc, _c in later]), later):
         compare(flat)
 
 
@@ -1192,6 +1303,27 @@ POPULATION_SCENARIOS = [
 ]
 
 
+# An attendance pass IN FLIGHT (thread 0: it has taken its snapshot of the subscriptions and serves them one by one)
+# against the calls that end or store a subscription, the competing program placed at EVERY scheduling point of the
+# pass (windows (0, 1): complete single hand-over).  What the race leaves behind in the service is judged by the passes
+# that FOLLOW: a further pass inside the run where the program has one, and always the quiescent passes issued after
+# the run (World.aftermath) - "neither lost nor resurrected" is a statement about every later pass, not about the
+# stored list alone.  In the Reactive variant an add runs the pass inline.  quick: entries with quick variants.
+ATTEND_SCENARIOS = [
+    # (name, programs, variants of the quick tier)
+    ("att_unsub", [["attend"], ["unsub"]], ("Thread",)),
+    ("att_cdereg_creg", [["attend"], ["cdereg", "creg"]], ("Reactive",)),
+    ("att_add_unsub", [["add"], ["unsub"]], ("Reactive",)),
+    ("att_unsub_sub", [["attend"], ["unsub", ("sub", 51, 1)]], ()),
+    ("att_sub_unsub", [["attend"], [("sub", 61, 1), ("unsub", 61, 1)]], ()),
+    ("att_att_unsub", [["attend", "attend"], ["unsub", "ssnap"]], ()),
+    ("att_att_cdereg_creg_sub", [["attend", "attend"], ["cdereg", "creg", ("sub", 51, 1)]], ()),
+    ("att_unsub_att", [["attend"], ["unsub"], ["attend"]], ()),
+    ("att_cdereg_att", [["attend"], ["cdereg"], ["attend", "ssnap"]], ()),
+    ("att_add_cdereg_creg", [["add", "add"], ["cdereg", "creg"]], ()),
+]
+
+
 def pair_plan():
     out = []
     for i, a in enumerate(PAIR_OPS):
@@ -1233,7 +1365,10 @@ def run(ctx):
                 "every stored object expired - one or two -, valid and expired in either order, nothing expired, emptied by "
                 "deletions, never used): sequential histories and every other random program start from such a population, "
                 "and for the populations a maintenance pass can leave EMPTY the pass runs against add / update / delete / "
-                "query with the competing program placed at every scheduling point of the pass (complete single hand-over). "
+                "query with the competing program placed at every scheduling point of the pass (complete single hand-over); "
+                "(e) an attendance pass in flight against unsubscribe / deregister+register / subscribe, competing program at "
+                "every scheduling point of the pass; every schedule and every sequential history is followed by two quiescent "
+                "attendance passes whose notifications must be exactly those of the stored subscriptions. "
                 "Each schedule is checked for linearizability against the "
                 "extracted specification (all linear extensions of program and real-time order) and by the text oracle; a "
                 "schedule is distinct by its thread-id sequence")
@@ -1276,6 +1411,14 @@ def run(ctx):
                 wins = [(0, 1)] if quick else [(a, b) for a in range(nt) for b in range(nt) if a != b]
                 run_scenario(ctx, lin, f"{name}_{pop}", variant, progs, 2, 6 if quick else 100, 2 if quick else 40,
                              population=pop, windows=wins)
+        # attendance passes in flight against the end / the storing of a subscription, judged by the passes that follow
+        for variant in ("Reactive", "Thread"):
+            for name, progs, quick_variants in ATTEND_SCENARIOS:
+                if quick and variant not in quick_variants:
+                    continue
+                nt = len(progs)
+                wins = [(0, 1)] if quick else [(a, b) for a in range(nt) for b in range(nt) if a != b]
+                run_scenario(ctx, lin, name, variant, progs, 2, 6 if quick else 100, 2 if quick else 40, windows=wins)
         n_rand = 25 if quick else 200
         pops = list(POPULATIONS)
         for i in range(n_rand):
@@ -1331,6 +1474,8 @@ def replay(ctx, data):
             except Deadlock as d:
                 dl = str(d)
             excs = [(a.tid, f"{type(a.exc).__name__}: {a.exc}") for a in s.actors if a.exc is not None]
+            if not excs and not dl:
+                excs = run_aftermath(w)
             for cls, detail, obs in oracle(w, w.calls, excs, dl):
                 ctx.property_failure(f"{cls}:{inp.get('scenario')}", inp, detail, None, obs)
             if not excs and not dl:
